@@ -91,9 +91,9 @@ class C02(ProgProp):
         # templates): every closure handed to the dispatcher must capture each of its `in` arguments by value
         import re
         from harness import gen_build as GB
-        from harness.common import evaluate, case_hash
+        from harness.common import evaluate, case_hash, scale
         rng, tier = ctx['rng'], ctx['tier']
-        n = 60 if tier == 'quick' else 2500
+        n = 60 if tier == 'quick' else scale(4000)
         saved = GB.CTYPES
         GB.CTYPES = ['int', 'const Payload&', 'Frame*', 'std::shared_ptr<X>', 'My::T<int>', 'char const *', 'std::string']
         try:
